@@ -88,6 +88,8 @@ class Hist:
             self.keys = list(dict.fromkeys(self.keys))
         else:
             self.keys = rng.sample(KEYS, min(n, len(KEYS)))
+        if rng.random() < 0.08:
+            self.keys.append(rng.choice([b"L" * 128, b"M" * 127, b"N" * 129]))
         if rng.random() < float(os.environ.get("VERIF_P_EMPTYKEY", "0.12")):
             # the empty key is a legal key (only nil is refused) and sorts first
             self.keys.append(b"")
@@ -135,6 +137,9 @@ class Hist:
         r = self.r
         if r.random() < self.p.p_empty_value:
             return b""
+        if r.random() < 0.02:
+            # lengths at which the length prefix grows by a byte
+            return bytes([r.randrange(256)]) * r.choice([127, 128, 129, 255, 256, 16383, 16384])
         return bytes([r.randrange(256) for _ in range(r.choice([1, 1, 2, 3, 8, 33]))])
 
     def some_key(self, present_bias=0.5):
@@ -259,7 +264,7 @@ class Hist:
         if op in ("get", "has", "gwi"):
             self.emit("%s%s %s" % (prefix, op, enc(self.probe_key())))
         elif op == "gbi":
-            self.emit("%sgbi %d" % (prefix, r.randint(0, max(1, len(self.working) + 1))))
+            self.emit("%sgbi %d" % (prefix, r.randint(0, max(1, len(self.working) + 1)) if r.random() < 0.93 else -r.randint(1, 3)))
         elif op in ("size", "height"):
             self.emit(prefix + op)
         elif op == "hash":
@@ -832,7 +837,7 @@ def gen_c11(seed, n, start_id=0):
             ks = sorted(present)
             for k in r.sample(ks, min(len(ks), 6)):
                 lines.append("gwi " + enc(k))
-            for idx in r.sample(range(len(ks)), min(len(ks), 6)) + [len(ks), len(ks) + 3]:
+            for idx in r.sample(range(len(ks)), min(len(ks), 6)) + [len(ks), len(ks) + 3, -1, -len(ks)]:
                 lines.append("gbi %d" % idx)
             lines.append("gwi " + enc(ks[0][:-1] + b"\x00" if len(ks[0]) > 1 else b""))
 
@@ -1302,6 +1307,38 @@ def gen_legacy(seed, n, start_id=0):
         h.sweep()
         for v in range(0, legacy_latest + 2):
             h.emit("vexists %d" % v)
+        # directed: roll back into the legacy range, commit on top, delete across the boundary, restart.
+        # The legacy orphan records whose upper version is the rollback target then name nodes that
+        # the target version - and everything committed on top - still uses.
+        legs = [v for v in sorted(h.versions) if v < legacy_latest]
+        if legs and r.random() < 0.3:
+            v = r.choice(legs)
+            h.emit("loadow %d" % v)
+            for u in list(h.versions):
+                if u > v:
+                    del h.versions[u]
+            h.base = v
+            h.working = dict(h.versions[v])
+            h.curlog = []
+            legacy_latest = v
+            for _ in range(r.randint(1, 3)):
+                for _ in range(r.randint(1, 4)):
+                    h.one_write()
+                h.save()
+            lo, hi = h.first(), h.latest()
+            nn = r.randint(v, hi - 1)
+            h.emit("prune %d" % nn)
+            for u in list(h.versions):
+                if u <= nn:
+                    del h.versions[u]
+            h.pruned_ever = True
+            h.sweep()
+            h.emit("close")
+            h.emit("cfg cache=%d fast=%d thr=%d iv=-" % (r.choice([0, 3, 100]), r.randint(0, 1), r.choice([0, 300])))
+            h.emit("open")
+            h.base = h.latest()
+            h.working = dict(h.versions.get(h.base, {}))
+            h.sweep()
         # new-format phase on top
         for _ in range(r.randint(1, 6)):
             x = r.random()
@@ -1378,7 +1415,7 @@ def gen_conc(seed, n, start_id=0):
         if len(vs) >= 2 and h.base == vs[-1]:
             v = rng.choice(vs[:-1])
             nn = rng.choice([x for x in vs[:-1] if x >= v])
-            lines.append("pinprune %d %d %s" % (v, nn, rng.choice(["export:pinned", "export:pinned", "export:before-pin", "prune:checked"])))
+            lines.append("pinprune %d %d %s" % (v, nn, rng.choice(["export:pinned", "export:pinned", "export:before-pin", "prune:checked", "double-close"])))
         out.append(("q%d" % (start_id + i), lines))
     return out
 
